@@ -112,8 +112,10 @@ ENVS = [
     ({'OF_SAFE_METRICS_FILE': 'yaml:safe_metrics: []\n'}, set()),
     ({'OF_SAFE_METRICS_FILE': 'yaml:other: 1\n'}, set()),
     ({'OF_SAFE_METRICS_FILE': 'yaml:openlineage: {url: x}\n', 'OF_SAFE_METRICS': 'zzz'}, None),
+    ({'OF_SAFE_METRICS': '*_fps, cpu_?, lane_[0-9]'}, {'*_fps', 'cpu_?', 'lane_[0-9]'}),
+    ({'OF_SAFE_METRICS': 'a*b, ?'}, {'a*b', '?'}),
 ]
-METRIC_NAMES = ['frames_processed', 'fps', 'secret_metric', 'a', 'bb', 'frames_']
+METRIC_NAMES = ['frames_processed', 'fps', 'secret_metric', 'a', 'bb', 'frames_', 'camera_fps', 'camera_fps_by_operator', 'cpu_1', 'cpu_12', 'lane_7', 'lane_77', 'axb', 'axbc', 'xaxb']
 
 
 def config_scenario(e):
